@@ -1425,7 +1425,7 @@ fn c15(args: &Args) -> ! {
             eprintln!("structured case: re-run the tier");
             std::process::exit(2);
         }
-        let r = ref_result(&RefCase::from_json(case), "replay");
+        let r = if case.get("refsort").is_some() { refsort_result(&RefCase::from_json(case)) } else { ref_result(&RefCase::from_json(case), "replay") };
         println!("replay outcome: {}", r.outcome);
         rep.case(Some(&r.id), &r.outcome);
         if let Some((k, w, c)) = r.violation {
@@ -1491,7 +1491,113 @@ fn c15(args: &Args) -> ! {
         }
     }
     run_cases(&mut rep, &descs, |d| ref_result(d, "graphs"));
+    // stores sorted on (reference, key): the order itself depends on the references. Forests only
+    // (every chain ends in a self-reference or in no reference), where a stable order exists.
+    let mut rdescs = vec![];
+    for n in 1..=maxn {
+        let keys: Vec<Vec<u8>> = (0..n).map(|k| vec![b'a' + k as u8]).collect();
+        for fsel in sequences(n + 1, n) {
+            let f: Vec<Option<usize>> = fsel.iter().map(|&x| if x == n { None } else { Some(x) }).collect();
+            // forest test: following f from every node reaches a fixed point or None within n steps
+            let forest = (0..n).all(|start| {
+                let mut cur = start;
+                for _ in 0..=n {
+                    match f[cur] {
+                        None => return true,
+                        Some(t) if t == cur => return true,
+                        Some(t) => cur = t,
+                    }
+                }
+                false
+            });
+            if !forest {
+                continue;
+            }
+            for order in permutations(n) {
+                rdescs.push(RefCase { n, f: f.clone(), order, sorted: true, extra_col: false, keys: keys.clone() });
+            }
+        }
+    }
+    run_cases(&mut rep, &rdescs, |d| refsort_result(d));
     rep.finish(args)
+}
+
+/// Store sorted on (reference, key). No order is predicted: the read-back store must be
+/// consistent with the property itself.
+fn refsort_result(case: &RefCase) -> CaseResult {
+    let n = case.n;
+    let schema = SchemaSpec {
+        stores: vec![StoreKind::Plain],
+        common: vec![PropSpec::A { prefix: 1, store: 0 }, PropSpec::U],
+        variants: vec![],
+        sort: Some(vec![1, 0]),
+    };
+    let entries: Vec<EntrySpec> = (0..n)
+        .map(|k| EntrySpec {
+            variant: None,
+            vals: vec![
+                Val::A(case.keys[k].clone()),
+                match case.f[k] {
+                    Some(t) => Val::Ref(t),
+                    None => Val::UW(n as u64 + 7),
+                },
+            ],
+        })
+        .collect();
+    let spec = DirSpec { schema, entries, indexes: simple_index(n) };
+    let mut cj = case.json();
+    cj["refsort"] = json!(true);
+    let fail = |k: &str, w: String| CaseResult {
+        id: format!("refsort:{}", cj),
+        nontrivial: true,
+        outcome: "violation".into(),
+        violation: Some((k.to_string(), w, cj.clone())),
+        sample: json!({"tier": "refsort", "case": cj}),
+    };
+    let built = match build_with_order(&spec, Some(&case.order)) {
+        Ok(b) => b,
+        Err(e) => {
+            let msg = match &e { BuildErr::Err(m) | BuildErr::Panic(m) => m.clone() };
+            return fail(&format!("C15 creation failed (sorted on a reference, forest) {}", jbkmc::panic_site(&msg)), msg);
+        }
+    };
+    let r = jbkmc::catch(|| -> Result<(), (String, String)> {
+        let od = open(built.bytes.clone()).map_err(|e| ("C15 unreadable".to_string(), e))?;
+        let oi = od.index("all").map_err(|e| ("C15 unreadable".to_string(), e))?.unwrap();
+        let mut pos_of_key: std::collections::HashMap<Vec<u8>, u64> = Default::default();
+        let mut rows = vec![];
+        for i in 0..n as u32 {
+            let e = oi.entry(i).map_err(|e| ("C15 unreadable entry".to_string(), e))?.unwrap();
+            let key = match &e.vals["p0"] { RVal::A(a) => a.clone(), _ => vec![] };
+            let r = match &e.vals["p1"] { RVal::U(u) => *u, _ => u64::MAX };
+            pos_of_key.insert(key.clone(), i as u64);
+            rows.push((key, r));
+        }
+        if pos_of_key.len() != n {
+            return Err(("C15 entries lost or duplicated".into(), format!("{rows:?}")));
+        }
+        for k in 0..n {
+            let p = pos_of_key[&case.keys[k]];
+            let want = match case.f[k] { Some(t) => pos_of_key[&case.keys[t]], None => n as u64 + 7 };
+            if rows[p as usize].1 != want {
+                return Err(("C15 reference does not resolve to the final position".into(), format!("entry {k} (at {p}) stores {}, its target is at {want}; rows {rows:?}", rows[p as usize].1)));
+            }
+            if built.bounds[k] as u64 != p {
+                return Err(("C15 handle does not report the final position".into(), format!("handle of entry {k} reports {}, entry is at {p}", built.bounds[k])));
+            }
+        }
+        for w in rows.windows(2) {
+            if (w[0].1, &w[0].0) > (w[1].1, &w[1].0) {
+                return Err(("C15 store sorted on a reference is not in order".into(), format!("{rows:?}")));
+            }
+        }
+        Ok(())
+    });
+    match r {
+        Ok(Ok(())) => CaseResult { id: format!("refsort:{}", cj), nontrivial: case.f.iter().any(|x| x.is_some()), outcome: "ok(refsort)".into(), violation: None, sample: json!({"tier":"refsort","case":cj}) },
+        Ok(Err((k, w))) => fail(&k, w),
+        Err(p) => fail(&format!("C15 reader-panic {}", jbkmc::panic_site(&p)), p),
+    }
 }
 
 fn main() {
